@@ -1,15 +1,14 @@
-"""C01 Field-element operations are exact arithmetic modulo p."""
+"""C02 Scalar operations are exact arithmetic modulo the group order n."""
+import os
 from .common import Check, load_prog, load_globals
 from . import ring as R
 
 
 def main():
-    chk = Check('C01')
+    chk = Check('C02')
     prog = load_prog()
     gl = load_globals(prog)
-    ring = R.Ring('field')
-    only = None
-    import os
+    ring = R.Ring('scalar')
     only = os.environ.get('VERIF_ONLY')
     if not only or 'lin' in only:
         R.linear_kernels(chk, prog, ring, gl)
@@ -19,8 +18,6 @@ def main():
         R.methods(chk, prog, ring, gl)
     if not only or 'chain' in only:
         R.chains(chk, prog, ring, gl)
-    if not only or 'extra' in only:
-        R.field_extras(chk, prog, ring, gl)
     chk.discharge()
     chk.finish()
 
